@@ -18,6 +18,13 @@ for c in T["claimed"]:
         "level_note": c["note"],
         "technique": c.get("technique", "contract-based deductive verification: Verus contracts spliced into the real functions (overlay), z3"),
     })
+props = [json.loads(l)["id"] for l in open(os.path.join(V, "properties.jsonl")) if l.strip()]
+na = list(T["not_applicable"])
+have = {c["id"] for c in T["claimed"]} | {n["property_id"] for n in na}
+for pid in props:
+    if pid not in have:
+        na.append({"property_id": pid, "reason": "not claimed at this commit: carriers still under construction (see DESIGN.md §0); no check is registered, nothing is reported for it"})
+T["not_applicable"] = na
 m = {
     "version": 1,
     "setup_cmd": "./pv setup",
